@@ -82,6 +82,7 @@ LN = z3.Function('ln', z3.RealSort(), z3.RealSort())
 EXP = z3.Function('exp', z3.RealSort(), z3.RealSort())
 
 _CUR = None  # current engine
+_INF = float('inf')
 
 
 def cur() -> "Engine":
@@ -298,6 +299,9 @@ class SymReal:
             return False
         if o is None or isinstance(o, str):
             return NotImplemented
+        if isinstance(o, float) and o in (_INF, -_INF):
+            # every real is strictly between -inf and +inf
+            return bool(f(0.0, o))
         return SymBool(z3.simplify(f(self.e, SymReal.lift(o))))
 
     def __lt__(self, o):
